@@ -561,26 +561,28 @@ class InProtocolBase(ProtocolMixin):
 
         duration = match.groupdict(0)
 
-        days = int(duration['days'])
-        days += int(duration['months']) * 30
-        days += int(duration['years']) * 365
-        hours = int(duration['hours'])
-        minutes = int(duration['minutes'])
-        # exact decimal arithmetic: binary floats lose microseconds
-        seconds = D(duration['seconds'])
-        i = int(seconds)
-        microseconds = int(((seconds - i) * 1000000).to_integral_value())
-        seconds = i
-
         try:
+            days = int(duration['days'])
+            days += int(duration['months']) * 30
+            days += int(duration['years']) * 365
+            hours = int(duration['hours'])
+            minutes = int(duration['minutes'])
+            # exact decimal arithmetic: binary floats lose microseconds
+            seconds = D(duration['seconds'])
+            i = int(seconds)
+            microseconds = int(((seconds - i) * 1000000).to_integral_value())
+            seconds = i
+
             delta = timedelta(days=days, hours=hours, minutes=minutes,
                 seconds=seconds, microseconds=microseconds)
 
             if duration['sign'] == "-":
                 delta *= -1
 
-        except OverflowError as e:
-            raise ValidationError(string, "%%r: %r" % e)
+        except (OverflowError, ValueError, ArithmeticError) as e:
+            # ValueError: int() refuses digit strings that are longer than
+            # sys.get_int_max_str_digits()
+            raise ValidationError(string[:100], "%%r: %r" % e)
 
         return delta
 
